@@ -262,18 +262,24 @@ NcStep(v) ==
                                            v.calls[i - 1].nat, i - 1)
     \* ... otherwise the previous call is finalized; after a recover the panics in excess of the panicked frames are popped
     [] k = "nc-finalize" -> [v EXCEPT !.nc = i - 1]
+    \* (the number of panics to keep is taken to be the number of panicked frames; a frame whose panic was aborted by a
+    \* newer panic of one of its deferred calls holds two panics: popping more than one panic is where that shows)
     [] k = "nc-finalize-recovered" ->
          LET np == NumPanicked(v.calls)  n == Len(v.panic) IN
-         [v EXCEPT !.panic = IF n > np THEN SubSeq(@, n - np + 1, n) ELSE @, !.nc = i - 1]
+         [v EXCEPT !.panic = IF n > np THEN SubSeq(@, n - np + 1, n) ELSE @, !.nc = i - 1,
+                   !.why = IF n - np > 1 THEN Why(v, "recovered-pop-miscount") ELSE v.why]
     \* a call is panicked: the first deferred call down the stack takes the place of the frame above it
     [] k = "nc-panicked-none" -> VFinish(v)
     [] k = "nc-panicked-defer" ->
          LET j == ScanDeferred(v.calls, i - 1) IN
          [v EXCEPT !.calls = SubSeq([@ EXCEPT ![j] = [v.calls[j + 1] EXCEPT !.st = "panicked"]], 1, j),
                    !.fn = v.calls[j].fn, !.pc = 1, !.nc = -2]
+    \* ... a native one is called in place, no i++: the for loop then goes on BELOW the panicked frame (index j - 1), so the
+    \* caller is resumed, or the next deferred call is run as if the panicking function had returned
     [] k = "nc-panicked-native" ->
          LET j == ScanDeferred(v.calls, i - 1) IN
-         VCallNative([v EXCEPT !.calls[j] = [v.calls[j + 1] EXCEPT !.st = "panicked"]], v.calls[j].nat, j - 1)
+         VCallNative([v EXCEPT !.calls[j] = [v.calls[j + 1] EXCEPT !.st = "panicked"], !.why = Why(v, "native-defer-while-panicking")],
+                     v.calls[j].nat, j - 1)
 
 VKind(prog, v) ==
   IF v.done # "no" THEN ""
